@@ -48,10 +48,11 @@ namespace rkcommon {
       }
 
      private:
-      // declaration before taskImpl: ensure initialization before task finishes
+      // declaration before taskImpl: ensure initialization before task starts
+      // (the task assigns retValue and sets jobFinished)
       std::atomic<bool> jobFinished{false};
-      detail::AsyncTaskImpl<std::function<void()>> taskImpl;
       T retValue;
+      detail::AsyncTaskImpl<std::function<void()>> taskImpl;
     };
 
   }  // namespace tasking
